@@ -162,6 +162,18 @@ func ImplRun(g *value.FunctionGenerator, c Case) Outcome {
 	return ImplEval(f, c)
 }
 
+// ImplRunTwice generates once and evaluates twice, passing the same argument objects
+// again: values are immutable, the second outcome is the first one.
+func ImplRunTwice(g *value.FunctionGenerator, c Case) (Outcome, Outcome) {
+	f, _, err := g.Generate(c.Text, c.Prog.ArgNames...)
+	if err != nil {
+		return Outcome{GenErr: err}, Outcome{GenErr: err}
+	}
+	args := ImplArgs(c, obs.RepListMap)
+	first := Observe(f.Eval(args...))
+	return first, Observe(f.Eval(args...))
+}
+
 func ImplEval(f funcGen.Func[value.Value], c Case) Outcome {
 	return Observe(f.Eval(ImplArgs(c, obs.RepListMap)...))
 }
